@@ -21,7 +21,7 @@ TRUSTED = [
 class Impl:
     """One analysed kernel of the real implementation."""
 
-    def __init__(self, isa, arch, lines, flag_deps, mm=None, start_line=0, sem=None):
+    def __init__(self, isa, arch, lines, flag_deps, mm=None, start_line=0, sem=None, gaps=None):
         from osaca.parser import ParserAArch64, ParserX86ATT
         from osaca.semantics import ArchSemantics, KernelDG, MachineModel
 
@@ -30,7 +30,19 @@ class Impl:
         self.mm = mm if mm is not None else MachineModel(arch=arch)
         # `sem`: a semantics object that already analysed other kernels (how a library user holds it); else a fresh one
         self.sem = sem if sem is not None else ArchSemantics(self.mm)
-        self.kernel = self.parser.parse_file("\n".join(lines), start_line)
+        # `gaps`: positions before which the analysed file has a line that is not selected (what `--lines 1-2,4-8` or a
+        # library user filtering the parsed list gives): the kernel's line numbers are then not consecutive
+        self.gaps = sorted(set(gaps or []))
+        if self.gaps:
+            text, skip = [], set()
+            for i, l in enumerate(lines):
+                if i in self.gaps:
+                    skip.add(len(text) + 1 + start_line)
+                    text.append("")
+                text.append(l)
+            self.kernel = [k for k in self.parser.parse_file("\n".join(text), start_line) if k.line_number not in skip]
+        else:
+            self.kernel = self.parser.parse_file("\n".join(lines), start_line)
         self.sem.add_semantics(self.kernel)
         self.kdg = KernelDG(self.kernel, self.parser, self.mm, self.sem, timeout=-1, flag_dependencies=flag_deps)
         self.ky, self.raised = dgenc.kernel_y(self.kernel, self.sem)
@@ -38,6 +50,8 @@ class Impl:
 
     def info(self):
         d = {"isa": self.isa, "arch": self.arch, "kernel": self.lines, "flag_deps": self.fd}
+        if self.gaps:
+            d["gaps"] = self.gaps
         if getattr(self, "reanalysed_after", None) is not None:
             d["reanalysed_after_flag_deps"] = self.reanalysed_after
             if getattr(self, "reanalysed_sub", None):
@@ -296,7 +310,11 @@ def kernels_stream(ctx, n, maxlen, kinds=None, real=True, big=False):
         fd = rng.random() < 0.4
         try:
             shared = sem_of(arch)
-            im_ = Impl(isa, arch, lines, fd, mm_of(arch), sem=shared)
+            gaps = None
+            if len(lines) > 2 and rng.random() < 0.2:
+                gaps = sorted(rng.sample(range(1, len(lines)), rng.randint(1, min(3, len(lines) - 1))))
+                ctx.count("kernels_with_line_number_gaps")
+            im_ = Impl(isa, arch, lines, fd, mm_of(arch), sem=shared, gaps=gaps)
             if shared is not None:
                 hist = sems.setdefault("hist:" + arch, [])
                 im_.shared_history = [list(h) for h in hist[-3:]]
